@@ -190,10 +190,10 @@ def coqchk(prop_file, timeout=2400):
 
 # ---------------------------------------------------------------- extraction + comparator
 
-def gen_extract(gen):
+def gen_extract(gen, exclude=()):
     """Extract.v and main.ml are generated from coq/extract/parts/*.txt and ocaml/cmp_*.ml, so that
     components can be added without editing shared files."""
-    mods, names, skipped = [], [], []
+    mods, names, skipped = [], [], list(exclude)
     for p in sorted(glob.glob(os.path.join(COQ, "extract/parts/*.txt"))):
         pm, pn = [], []
         for line in open(p):
@@ -205,7 +205,7 @@ def gen_extract(gen):
             else:
                 pn += line.split()
         # a part whose model does not compile right now (work in progress) is left out, with its comparator
-        okp = True
+        okp = os.path.basename(p)[:-4] not in exclude
         for m in pm:
             src = [q for q in coq_sources() if os.path.basename(q) == m + ".v"]
             if not src or not os.path.exists(src[0] + "o") or os.path.getmtime(src[0] + "o") < os.path.getmtime(src[0]):
@@ -234,6 +234,16 @@ def gen_extract(gen):
     return comps
 
 
+def _part_names_missing(comp, coq_out):
+    """True when the extraction error names an identifier listed in this component's part file."""
+    p = os.path.join(COQ, "extract/parts", comp + ".txt")
+    try:
+        names = [w for l in open(p) if not l.startswith(("#", "modules:")) for w in l.split()]
+    except OSError:
+        return False
+    return any(re.search(r"\b%s\b" % re.escape(n), coq_out) for n in names)
+
+
 def build_cmp():
     gen = os.path.join(VERIF, "ocaml/gen")
     os.makedirs(gen, exist_ok=True)
@@ -246,18 +256,43 @@ def build_cmp():
         return True, "cached"
     # the models must be compiled before extraction
     build_coq(only=[os.path.relpath(q, COQ) for q in coq_sources() if "/model/" in q or "/gen/" in q])
-    comps = gen_extract(gen)
-    rc, out, _ = sh(["coqc", "-Q", "../../coq/gen", "Sctp", "-Q", "../../coq/model", "Sctp", "Extract.v"], cwd=gen, timeout=900)
-    if rc != 0:
-        return False, "extraction failed:\n" + out
-    mls = ["zio.ml"] + ["cmp_%s.ml" % c for c in comps]
-    for m in mls:
-        shutil.copy(os.path.join(VERIF, "ocaml", m), os.path.join(gen, m))
-    mls.append("main.ml")
-    rc, out2, _ = sh(["ocamlfind", "ocamlopt", "-inline", "50", "-w", "-a", "-package", "zarith", "-linkpkg",
-                      "model.mli", "model.ml"] + mls + ["-o", cmpbin], cwd=gen, timeout=900)
-    if rc != 0:
+    # A component whose comparator or extraction part does not build (another component's work in progress) is
+    # left out and the build retried, so that it cannot take the other components' correspondence down with it;
+    # a check that needs the excluded component then reports its correspondence as broken (run_cmp: usage error).
+    excluded, out, out2 = [], "", ""
+    for attempt in range(6):
+        comps = gen_extract(gen, exclude=tuple(excluded))
+        rc, out, _ = sh(["coqc", "-Q", "../../coq/gen", "Sctp", "-Q", "../../coq/model", "Sctp", "Extract.v"], cwd=gen, timeout=900)
+        if rc != 0:
+            bad = [c for c in comps if c not in excluded and _part_names_missing(c, out)]
+            if bad:
+                excluded += bad
+                continue
+            return False, "extraction failed:\n" + out
+        mls = ["zio.ml"] + ["cmp_%s.ml" % c for c in comps]
+        for m in mls:
+            shutil.copy(os.path.join(VERIF, "ocaml", m), os.path.join(gen, m))
+        mls.append("main.ml")
+        rc, out2, _ = sh(["ocamlfind", "ocamlopt", "-inline", "50", "-w", "-a", "-package", "zarith", "-linkpkg",
+                          "model.mli", "model.ml"] + mls + ["-o", cmpbin + ".new"], cwd=gen, timeout=900)
+        if rc == 0:
+            os.replace(cmpbin + ".new", cmpbin)
+            break
+        m = re.search(r'File "cmp_([a-z0-9_]+)\.ml"', out2)
+        if m and m.group(1) in comps and m.group(1) not in excluded:
+            excluded.append(m.group(1))
+            continue
         return False, "comparator build failed:\n" + out2
+    else:
+        return False, "comparator build failed:\n" + out2
+    if excluded:
+        out2 += "\n[components left out because they do not build right now: %s]" % " ".join(excluded)
+        open(os.path.join(BUILD, "cmp.excluded"), "w").write(" ".join(excluded))
+        return True, out + out2   # no stamp: rebuilt next time
+    try:
+        os.remove(os.path.join(BUILD, "cmp.excluded"))
+    except OSError:
+        pass
     open(stamp, "w").write(h)
     return True, out + out2
 
